@@ -54,7 +54,12 @@ def check_pow(rep, f, rhs_types=None, rule_d="R16", rule_s="R13"):
         base = f.get(base_ident)
         if base is None:
             rep.fail(rule_d, base_ident, "anchor-lost:" + base_ident, "%s not found (reason=anchor-lost)" % base_ident); continue
-        bt = H.norm_tree(H.tree_of(f, base, "prim", keep=KEEP_INHERENT))
+        try:
+            bt = H.norm_tree(H.tree_of(f, base, "prim", keep=KEEP_INHERENT))
+        except vg.Unsupported as u:
+            # an entry point that runs a loop of its own (or a looping private helper) instead of forwarding to its inherent counterpart
+            rep.fail(rule_d, base_ident, "delegation:" + base_ident, "%s does not return TwoFloat::%s of its operands: it cannot be read as a forwarding call (%s)"
+                     % (base_ident, "powf" if rt in ("f64", TF) else "powi", u), where=H.where(base)); continue
         if rt in ("f64", TF):
             arg = mk("agg", ("adt", "TwoFloat", 0, "TwoFloat"), (P(1), zero)) if rt == "f64" else P(1)
             exp = mk("call", "TwoFloat::powf", P(0), arg)
@@ -71,7 +76,10 @@ def check_pow(rep, f, rhs_types=None, rule_d="R16", rule_s="R13"):
                 b = f.get(ident)
                 if b is None:
                     rep.fail(rule_s, ident, "anchor-lost:" + ident, "%s not found (reason=anchor-lost)" % ident); continue
-                t = H.norm_tree(H.tree_of(f, b, "prim", keep=KEEP_INHERENT))
+                try:
+                    t = H.norm_tree(H.tree_of(f, b, "prim", keep=KEEP_INHERENT))
+                except vg.Unsupported as u:
+                    rep.fail(rule_s, ident, "spelling-differs:" + ident, "%s cannot be read as the same forwarding call as %s (%s)" % (ident, base_ident, u), where=H.where(b)); continue
                 ok, d = H.result_trees_equal(bt, t)
                 rep.check(ok, rule_s, ident, "spelling-differs:" + ident, "%s is not bit-identical to %s: %s" % (ident, base_ident, H.describe_diff(d)),
                           where=H.where(b), detail="same normal form as " + base_ident, algebra="E")
